@@ -83,6 +83,7 @@ type output struct {
 	GateRuns   int             `json:"determinism_gate_runs"`
 	WallS      float64         `json:"wall_s"`
 	Race       bool            `json:"race_build"`
+	Aborted    string          `json:"aborted"`
 }
 
 // per-property execution plan
@@ -409,6 +410,11 @@ func check(id, tier string) int {
 	}
 	wg.Wait()
 	shardErr := ""
+	for i, o := range outs {
+		if o != nil && o.Aborted != "" && shardErr == "" {
+			shardErr = fmt.Sprintf("shard %d: %s", i, o.Aborted)
+		}
+	}
 	var crash *replay
 	for i, e := range errs {
 		if e != "" {
